@@ -35,6 +35,9 @@ pub const CHECKS: &[(&str, RunFn, JudgeFn)] = &[
     ("C10", checks::c10::run, checks::c10::judge),
     ("C11", checks::c11::run, checks::c11::judge),
     ("C12", checks::c12::run, checks::c12::judge),
+    ("C13", checks::c13::run, checks::c13::judge),
+    ("C14", checks::c14::run, checks::c14::judge),
+    ("C17", checks::c17::run, checks::c17::judge),
 ];
 
 pub fn judge_for(property: &str) -> Option<JudgeFn> {
